@@ -1,10 +1,14 @@
 """C20 — sorting, chunking, progress and parallel wrappers (DESIGN.md section 7, C20)."""
 import functools
 import io
+import itertools
+import os
+import re
 
 from .. import core
 from ..core import cz, clist, copt, cbool
 from ..runner import Entry, differential
+from . import c20_translate
 
 PRE = "From EsVerif.Common Require Import Base.\nFrom EsVerif.C20 Require Import Model Spec Exec.\n"
 
@@ -74,6 +78,15 @@ class SplitArray(Entry):
             for n in range(0, 12):
                 for nper in range(1, 8):
                     cs.append({"nper": nper, "var": [r.randrange(-50, 50) for _ in range(n)], "family": "grid"})
+            # requested size outside the property's domain: 0 divides by zero, a negative size gives no chunks
+            for nper in (0, -1, -3):
+                for n in (0, 1, 6):
+                    cs.append({"nper": nper, "var": list(range(n)), "family": "non-positive nper"})
+            cs.append({"nper": 10**6, "var": [4, 5, 6], "family": "grid"})
+            if not ctx.quick():
+                for n in range(0, 31):
+                    for nper in range(1, 13):
+                        cs.append({"nper": nper, "var": list(range(7, 7 + n)), "family": "exhaustive-30x12"})
         for _ in range(ctx.n(100, 1500)):
             n = r.randrange(0, 120)
             cs.append({"nper": r.choice([1, 2, 3, 5, n, n + 1, max(1, n - 1), r.randrange(1, 40)]) or 1,
@@ -93,7 +106,7 @@ class SplitArray(Entry):
                                           cres(out, lambda l: "[" + "; ".join(clist(x) for x in l) + "]"))
 
     def nontrivial(self, c, out):
-        return len(c["var"]) >= 3 and len(c["var"]) % c["nper"] != 0 and c["nper"] < len(c["var"])
+        return c["nper"] >= 1 and len(c["var"]) >= 3 and len(c["var"]) % c["nper"] != 0 and c["nper"] < len(c["var"])
 
     def show(self, c):
         return "splitarray %s %s" % (cz(c["nper"]), clist(c["var"]))
@@ -105,6 +118,11 @@ def _arrays(ctx, round):
     if round == 0:
         out += [([], "empty"), ([5], "single"), ([2, 1], "pair"), ([1, 1, 1, 1], "constant"),
                 (list(range(40)), "sorted"), (list(range(40, 0, -1)), "reversed"), ([3, 1, 3, 1, 0, 3, 1], "ties")]
+        if not ctx.quick():
+            # every list over {0,1,2} of length <= 6 (ties, sorted and reversed runs included)
+            for k in range(0, 7):
+                for t in itertools.product((0, 1, 2), repeat=k):
+                    out.append((list(t), "exhaustive-3^k,k<=6"))
     for _ in range(ctx.n(120, 2000)):
         n = r.randrange(0, 60)
         kind = r.choice(["ties", "wide", "sorted", "reversed", "nearly"])
@@ -190,7 +208,7 @@ class PBar(Entry):
         for kind in kinds:
             for n in ([0, 1, 3, 12] if round == 0 else [r.randrange(0, 30)]):
                 for simple in (False, True):
-                    for tot in ("none", "exact", "less", "more", "zero"):
+                    for tot in ("none", "exact", "less", "more", "zero", "negative"):
                         cs.append({"kind": kind, "n": n, "simple": simple, "total": tot,
                                    "desc": r.choice(["", "lbl"]), "leave": r.random() < 0.5,
                                    "mininterval": r.choice([0, 0.5]), "miniters": r.choice([1, 3]),
@@ -201,7 +219,7 @@ class PBar(Entry):
     @staticmethod
     def _total(c):
         n = c["n"]
-        return {"none": None, "exact": n, "less": max(n - 2, 1), "more": n + 5, "zero": 0}[c["total"]]
+        return {"none": None, "exact": n, "less": max(n - 2, 1), "more": n + 5, "zero": 0, "negative": -3}[c["total"]]
 
     def impl(self, c):
         import esutil.pbar as pb
@@ -219,7 +237,8 @@ class PBar(Entry):
             for x in items:
                 pulled[0] += 1
                 yield x
-        kw = dict(desc=c["desc"], total=self._total(c), leave=c["leave"], file=io.StringIO(),
+        buf = io.StringIO()
+        kw = dict(desc=c["desc"], total=self._total(c), leave=c["leave"], file=buf,
                   mininterval=c["mininterval"], miniters=c["miniters"], n_bars=c["n_bars"], simple=c["simple"])
         got, end = [], None
         try:
@@ -233,7 +252,7 @@ class PBar(Entry):
                     got.append((int(x), pulled[0]))
         except Exception as e:  # noqa
             end = "EOther" if isinstance(e, ZeroDivisionError) else core.errclass(e)
-        return {"yielded": got, "end": end}
+        return {"yielded": got, "end": end, "prints": None if c["simple"] else parse_meters(buf.getvalue(), c["desc"])}
 
     def _cfg(self, c):
         has_len = c["kind"] != "generator"
@@ -241,8 +260,12 @@ class PBar(Entry):
 
     def term(self, c, out):
         items = [10 + 3 * i for i in range(c["n"])]
-        return "v_pbar %s %s (%s, %s)" % (self._cfg(c), clist(items), cpairs(out["yielded"]),
-                                          "None" if out["end"] is None else "Some " + out["end"])
+        o = "(%s, %s)" % (cpairs(out["yielded"]), "None" if out["end"] is None else "Some " + out["end"])
+        if c["simple"] or out["end"] is not None:
+            return "v_pbar %s %s %s" % (self._cfg(c), clist(items), o)
+        # the full bar: the meters written to file= as well (deterministic schedule when mininterval = 0)
+        return "v_pbar_prints %s %s %s %s %s %s %s" % (self._cfg(c), cz(c["miniters"]), cbool(c["leave"]),
+                                                      cbool(c["mininterval"] == 0), clist(items), o, cprints(out["prints"]))
 
     def nontrivial(self, c, out):
         return c["n"] >= 3
@@ -252,6 +275,34 @@ class PBar(Entry):
 
     def classify(self, c, out, v):
         return None
+
+
+def parse_meters(text, desc):
+    """the meters written by the full bar: [(count shown, total shown or None)], in order; [(-1, None)] when a
+    piece of the text is not a meter"""
+    out = []
+    pre = desc + ": " if desc else ""
+    for seg in text.replace("\n", "").split("\r"):
+        seg = seg.rstrip(" ")
+        if not seg:
+            continue
+        if pre and not seg.startswith(pre):
+            return [(-1, None)]
+        seg = seg[len(pre):]
+        m = re.match(r"^\|[#-]*\|\s*(\d+)/(\d+) ", seg)
+        if m:
+            out.append((int(m.group(1)), int(m.group(2))))
+            continue
+        m = re.match(r"^(-?\d+) \[elapsed: ", seg)
+        if m:
+            out.append((int(m.group(1)), None))
+            continue
+        return [(-1, None)]
+    return out
+
+
+def cprints(ps):
+    return "[" + "; ".join("(%s, %s)" % (cz(a), copt(b)) for a, b in ps) + "]"
 
 
 class _CountRange:
@@ -302,26 +353,347 @@ class PMap(Entry):
         return "map (fun x => %s * x * x + %s) %s" % (cz(c["a"]), cz(c["b"]), clist(c["items"]))
 
 
-ENTRIES = [ISplit(), SplitArray(), QuickSort(), QuickSortKV(), PBar(), PMap()]
+class FormatInterval(Entry):
+    """pbar.format_interval / format_meter: the integer fields of the text and which total is displayed"""
+    name = "format"
+
+    def cases(self, ctx, round=0):
+        r = ctx.rng
+        cs = []
+        if round == 0:
+            for t in (0, 1, 59, 60, 61, 3599, 3600, 3601, 86399, 86400, 359999, 360000, 59.999, 3599.5):
+                cs.append({"what": "interval", "t": t, "family": "interval/boundaries"})
+            for n in (0, 1, 5, 6):
+                for tot in (None, 0, 1, 5, 6, -2):
+                    cs.append({"what": "meter", "n": n, "total": tot, "family": "meter/grid"})
+        for _ in range(ctx.n(40, 400)):
+            cs.append({"what": "interval", "t": r.choice([r.randrange(0, 4000), r.randrange(0, 10**6), r.uniform(0, 5000)]),
+                       "family": "interval/random"})
+            cs.append({"what": "meter", "n": r.randrange(0, 50), "total": r.choice([None, r.randrange(-5, 60)]),
+                       "family": "meter/random"})
+        return cs
+
+    def impl(self, c):
+        import esutil.pbar as pb
+        if c["what"] == "interval":
+            return core.guarded(lambda: [int(x) for x in pb.format_interval(c["t"]).split(":")])
+        return core.guarded(lambda: parse_meters(pb.format_meter(c["n"], c["total"], 0, n_bars=7), ""))
+
+    def term(self, c, out):
+        if c["what"] == "interval":
+            return "v_format_interval %s %s" % (cz(int(c["t"])), clist(out[1]) if out[0] == "ok" else "[(-1)%Z]")
+        shown = out[1][0][1] if out[0] == "ok" and len(out[1]) == 1 and out[1][0][0] == c["n"] else -99
+        return "v_meter_total %s %s %s" % (cz(c["n"]), copt(c["total"]), copt(shown))
+
+    def nontrivial(self, c, out):
+        return (c["what"] == "interval" and c["t"] >= 60) or (c["what"] == "meter" and c["total"] is not None)
+
+
+class Nested(Entry):
+    """pbar(pbar(source, inner options), outer options)"""
+    name = "nested"
+
+    def cases(self, ctx, round=0):
+        r = ctx.rng
+        cs = []
+        for kind in ("list", "generator"):
+            for n in ([0, 1, 4] if round == 0 else [r.randrange(0, 20)]):
+                for si in (False, True):
+                    for so in (False, True):
+                        for ti, to in (("none", "none"), ("exact", "exact"), ("none", "exact"), ("zero", "more"), ("less", "zero")):
+                            cs.append({"kind": kind, "n": n, "simple_i": si, "simple_o": so, "total_i": ti, "total_o": to,
+                                       "miniters": r.choice([1, 2]), "family": "%s/inner=%s/outer=%s" % (
+                                           kind, "simple" if si else "full", "simple" if so else "full")})
+        return cs
+
+    @staticmethod
+    def _tot(c, which):
+        return PBar._total({"n": c["n"], "total": c[which]})
+
+    def impl(self, c):
+        import esutil.pbar as pb
+        items = [10 + 3 * i for i in range(c["n"])]
+        pulled = [0]
+
+        def gen():
+            for x in items:
+                pulled[0] += 1
+                yield x
+        src = gen() if c["kind"] == "generator" else _CountRange(items, pulled)
+        got, end = [], None
+        try:
+            inner = pb.pbar(src, total=self._tot(c, "total_i"), simple=c["simple_i"], file=io.StringIO(), mininterval=0,
+                            miniters=c["miniters"])
+            for x in pb.pbar(inner, total=self._tot(c, "total_o"), simple=c["simple_o"], file=io.StringIO(), mininterval=0,
+                             desc="outer"):
+                got.append((int(x), pulled[0]))
+        except Exception as e:  # noqa
+            end = "EOther" if isinstance(e, ZeroDivisionError) else core.errclass(e)
+        return {"yielded": got, "end": end}
+
+    def _cfgs(self, c):
+        f = "{| simple := %s; has_len := %s; total := %s |}"
+        return (f % (cbool(c["simple_o"]), "false", copt(self._tot(c, "total_o"))),
+                f % (cbool(c["simple_i"]), cbool(c["kind"] != "generator"), copt(self._tot(c, "total_i"))))
+
+    def term(self, c, out):
+        co, ci = self._cfgs(c)
+        return "v_pbar_nested %s %s %s (%s, %s)" % (co, ci, clist([10 + 3 * i for i in range(c["n"])]), cpairs(out["yielded"]),
+                                                  "None" if out["end"] is None else "Some " + out["end"])
+
+    def nontrivial(self, c, out):
+        return c["n"] >= 3
+
+    def show(self, c):
+        co, ci = self._cfgs(c)
+        return "pbar_nested %s %s %s" % (co, ci, clist([10 + 3 * i for i in range(c["n"])]))
+
+
+class PRange(Entry):
+    """prange(stop) / prange(start, stop) / prange(start, stop, step) and the argument errors of range()"""
+    name = "prange"
+
+    def cases(self, ctx, round=0):
+        r = ctx.rng
+        cs = []
+        argsets = []
+        if round == 0:
+            argsets += [[], [0], [5], [-3], [2, 9], [9, 2], [4, 4], [0, 10, 3], [0, 10, 10], [0, 10, 11], [10, 0, -3], [10, 0, -1],
+                        [0, 10, -2], [10, 0, 2], [5, 5, -1], [-7, 8, 4], [1, 2, 0], [1, 2, 3, 4], [0, 9, 3], [0, -9, -3], [3, -10, -4]]
+        for _ in range(ctx.n(40, 400)):
+            k = r.choice([1, 2, 3, 3, 3])
+            a = [r.randrange(-20, 21) for _ in range(k)]
+            if k == 3 and r.random() < 0.9 and a[2] == 0:
+                a[2] = r.choice([-2, 3])
+            argsets.append(a)
+        for a in argsets:
+            cs.append({"args": a, "simple": r.random() < 0.4, "total": r.choice(["none", "none", "exact", "less", "more", "zero"]),
+                       "miniters": r.choice([1, 3]), "leave": r.random() < 0.5,
+                       "family": "%d args%s" % (len(a), "/step<0" if len(a) == 3 and a[2] < 0 else "")})
+        return cs
+
+    @staticmethod
+    def _items(c):
+        try:
+            return list(range(*c["args"]))
+        except Exception:  # noqa
+            return None
+
+    def _total(self, c):
+        it = self._items(c)
+        return PBar._total({"n": len(it) if it is not None else 0, "total": c["total"]})
+
+    def impl(self, c):
+        import esutil.pbar as pb
+        got, end = [], None
+        try:
+            for x in pb.prange(*c["args"], total=self._total(c), simple=c["simple"], file=io.StringIO(), mininterval=0,
+                               miniters=c["miniters"], leave=c["leave"]):
+                got.append((int(x), len(got) + 1))
+        except Exception as e:  # noqa
+            end = "EOther" if isinstance(e, ZeroDivisionError) else core.errclass(e)
+        return {"yielded": got, "end": end}
+
+    def _cfg(self, c):
+        return "{| simple := %s; has_len := true; total := %s |}" % (cbool(c["simple"]), copt(self._total(c)))
+
+    def term(self, c, out):
+        it = self._items(c)
+        return "v_prange %s %s %s (%s, %s)" % (self._cfg(c), clist(c["args"]), "None" if it is None else "(Some %s)" % clist(it),
+                                               cpairs(out["yielded"]), "None" if out["end"] is None else "Some " + out["end"])
+
+    def nontrivial(self, c, out):
+        it = self._items(c)
+        return it is not None and len(it) >= 3
+
+    def show(self, c):
+        return "prange %s %s" % (self._cfg(c), clist(c["args"]))
+
+
+class PMapExn(Entry):
+    """pmap with a mapped function that raises for some items (ValueError / KeyError), a generator as input (how much of
+    it was consumed) and the meters written through file= (how many results went through the bar before the raise)"""
+    name = "pmap_exn"
+
+    def cases(self, ctx, round=0):
+        r = ctx.rng
+        cs = []
+        for nproc in ([1, 2, 4] if round == 0 else [3, 8]):
+            for _ in range(ctx.n(3, 10)):
+                n = r.randrange(0, 14)
+                cs.append({"a": r.randrange(-3, 4), "b": r.randrange(-9, 10), "lat": r.randrange(1, 100),
+                           "p": r.choice([2, 3, 5, 7, 50]), "r": r.randrange(0, 2), "q": r.choice([3, 4, 6, 50]), "s": r.randrange(0, 3),
+                           "items": [r.randrange(-20, 20) for _ in range(n)],
+                           "chunksize": r.choice([1, 2, 3, max(n, 1), n + 1, 3 * n + 7]), "nproc": nproc,
+                           "total": r.choice(["given", "absent"]), "family": "nproc=%d" % nproc})
+        if round == 0:
+            base = {"a": 1, "b": 0, "lat": 5, "p": 50, "r": 7, "q": 50, "s": 9, "nproc": 3, "total": "given"}
+            # first failing item in the LAST position of a chunk, two failing chunks (the later one finishes first), nothing fails
+            cs.append(dict(base, items=[1, 2, 7, 4, 5, 9, 6, 8], chunksize=3, family="raise/end of chunk"))
+            cs.append(dict(base, items=[1, 2, 3, 4, 9, 0, 7, 8], chunksize=2, family="raise/two chunks fail"))
+            cs.append(dict(base, items=[7], chunksize=1, nproc=1, family="raise/single item"))
+            cs.append(dict(base, items=[1, 2, 3, 4, 5], chunksize=9, nproc=1, total="absent", family="raise/none, one chunk, one worker"))
+            cs.append(dict(base, items=[], chunksize=2, nproc=2, family="raise/empty"))
+        return cs
+
+    def impl(self, c):
+        import esutil.pbar as pb
+        from . import c20_tasks
+        fn = functools.partial(c20_tasks.task_exn, c["a"], c["b"], c["p"], c["r"], c["q"], c["s"], c["lat"])
+        buf = io.StringIO()
+        kw = {"file": buf, "mininterval": 0, "miniters": 1}
+        if c["total"] == "given":
+            kw["total"] = len(c["items"])
+        pulled = [0]
+
+        def gen():
+            for x in c["items"]:
+                pulled[0] += 1
+                yield x
+        end, res = None, []
+        try:
+            res = [int(x) for x in pb.pmap(fn, gen(), chunksize=c["chunksize"], nproc=c["nproc"], **kw)]
+        except Exception as e:  # noqa
+            end = core.errclass(e)
+        ms = parse_meters(buf.getvalue(), "")
+        return {"end": end, "res": res, "yielded": ms[-1][0] if ms else -1, "pulled": pulled[0]}
+
+    def term(self, c, out):
+        return "v_pmap_exn %s %s %s %s %s %s %s %s %s %s %s %s" % (
+            cz(c["a"]), cz(c["b"]), cz(c["p"]), cz(c["r"]), cz(c["q"]), cz(c["s"]), clist(c["items"]), cz(c["chunksize"]),
+            "None" if out["end"] is None else "(Some %s)" % out["end"], clist(out["res"]), cz(out["yielded"]), cz(out["pulled"]))
+
+    def nontrivial(self, c, out):
+        return len(c["items"]) > c["chunksize"] and (out["end"] is not None or c["nproc"] >= 2)
+
+    def show(self, c):
+        return "pmap_exn (task_exn %s %s %s %s %s %s) %s %s (zseq 0 %d)" % (
+            cz(c["a"]), cz(c["b"]), cz(c["p"]), cz(c["r"]), cz(c["q"]), cz(c["s"]), clist(c["items"]), cz(c["chunksize"]),
+            len(c["items"]) + 1)
+
+
+ENTRIES = [ISplit(), SplitArray(), QuickSort(), QuickSortKV(), PBar(), FormatInterval(), Nested(), PRange(), PMap(), PMapExn()]
 
 TRUSTED = [
     "Coq 8.16.1 kernel (coqc, vm_compute; no native_compute); all C20 theorems are closed under the global context (no axioms)",
-    "hand-written models C20/Model.v of algorithm.py, numpy_util.splitarray, pbar.py; tied to /repo by the correspondence run on every check (differential testing, bounded by the generators)",
-    "modelled, not verified: CPython generator semantics (pbar is a generator; laziness is observed through a counting iterable), "
-    "ProcessPoolExecutor.map (executor model: chunks complete in any order, results retrieved in submission order), numpy slicing/cumsum, time.time()",
-    "python harness (harness/props/C20.py), literal printers, coqc evaluating Exec.v verdict terms",
+    "translator harness/props/c20_translate.py + harness/translate/tint.py (python ast -> C20/Gen.v, fail closed): trusted to print "
+    "what the source says for the holes of its templates (isplit core / section sizes / indices, splitarray chunk count and slice "
+    "bounds, every expression of partition / _quicksort and the key-value twins, format_interval, the total shown by format_meter, "
+    "dispatch / total fallback / loop-body statement order / counter and update tests of pbar, _pbar_full, sbar) and to reject any "
+    "other change of the anchored functions; C20/Tie.v proves Gen = model for all inputs (re-checked on every run); the regenerated "
+    "functions are also covered by the correspondence run because the model they are proved equal to is",
+    "hand-written models C20/Model.v, Model2.v; tied to /repo by Gen.v/Tie.v where regenerated and by the correspondence run on "
+    "every check (differential testing, bounded by the generators)",
+    "modelled, not verified: CPython generator semantics (a generator body runs up to its yield; laziness is observed through a "
+    "counting iterable), python's range, ProcessPoolExecutor.map (executor model: the input is consumed when map() is called, chunks "
+    "complete in any order, one raise loses its whole chunk, results and the first raise are retrieved in submission order), numpy "
+    "slicing/cumsum, time.time() (monotone; the meter schedule is compared exactly only for mininterval=0), the float formatting of "
+    "the meter (pinned by text, not modelled)",
+    "python harness (harness/props/C20.py): generators, drivers, parser of the meter text, literal printers; coqc evaluating Exec.v "
+    "verdict terms",
 ]
+
+
+def regenerate(ctx):
+    """C20/Gen.v from the sources of the tree under check; True when the text could be produced"""
+    try:
+        text, changed = c20_translate.regenerate(ctx.impl, core.COQDIR)
+        ctx.obligation("C20/Gen.v regenerated from esutil/algorithm.py, numpy_util.py, pbar.py (%d definitions)%s" % (
+            len(re.findall(r"^\s*(?:Definition|Fixpoint) ", text, re.M)), " [text changed]" if changed else ""), True)
+        if changed:
+            ctx.notes.append("Gen.v regenerated from the source differs from the text of the last build: C20/Tie.v and "
+                             "Properties.v are re-checked against it")
+        return True
+    except Exception as e:  # noqa  (Untranslatable, SyntaxError, OSError)
+        ctx.obligation("C20/Gen.v regenerated from esutil/algorithm.py, numpy_util.py, pbar.py", False, str(e))
+        ctx.violation("translation of the anchored functions failed (fail closed): %s" % str(e)[:300],
+                      {"kind": "translation", "error": str(e),
+                       "no_longer_checks": "tie of C20/Gen.v to esutil/algorithm.py, numpy_util.py, pbar.py; the theorems "
+                                           "C20_source_* / C20_*_of_source are about the last text that could be translated"},
+                      found_input=False)
+        return False
+
+
+GEN_SEARCH = [
+    # (what, Coq term : option <counterexample>) evaluated against Gen.v when the tie theorems no longer hold
+    ("gen_isplit violates isplit_ok",
+     "find (fun p => match gen_isplit (fst p) (snd p) with Ok l => negb (isplit_check (fst p) (snd p) l) | Err _ => true end) "
+     "(flat_map (fun a => map (fun b => (a, b)) (zseq 1 12)) (zseq 0 40))"),
+    ("gen_splitarray violates splitarray_ok",
+     "find (fun p => match gen_splitarray (snd p) (zseq 7 (Z.to_nat (fst p))) with Ok cs => negb (splitarray_check (snd p) (zseq 7 (Z.to_nat (fst p))) cs) "
+     "| Err _ => true end) (flat_map (fun a => map (fun b => (a, b)) (zseq 1 8)) (zseq 0 25))"),
+    ("gen_quicksort does not sort",
+     "find (fun l => match gen_quicksort (fun x => x) 0 l with Some o => negb (sort_check l o) | None => true end) "
+     "(flat_map all_lists (seq 0 7))"),
+    ("gen_quicksort_kv does not sort / keep pairs",
+     "find (fun l => match gen_quicksort_kv fst (0, 0) (with_values l) with Some o => negb (sortkv_check (with_values l) o) | None => true end) "
+     "(flat_map all_lists (seq 0 7))"),
+]
+
+
+def search_in_gen(ctx):
+    """DESIGN 5.2: the tie theorems failed -- evaluate the NEW regenerated definitions against the verified checkers on small
+    scopes inside Coq; a counterexample is a failing input of the source as translated"""
+    ok, log = core.coq_make(["theories/C20/Gen.vo", "theories/C20/Exec.vo"])
+    if not ok:
+        ctx.notes.append("regenerated Gen.v does not compile: " + log[-400:])
+        return
+    pre = PRE + "From EsVerif.C20 Require Import Model2 Gen.\n"
+    for what, term in GEN_SEARCH:
+        try:
+            txt = core.coq_show(os.path.join(ctx.work, "gensearch"), pre, term)
+        except Exception as e:  # noqa
+            ctx.notes.append("search in Gen.v (%s): %s" % (what, str(e)[:200]))
+            continue
+        m = re.search(r"=\s*(Some .*?)\s*:\s*option", txt, re.S)
+        if m:
+            ctx.violation("regenerated source: %s" % what,
+                          {"kind": "failing-input", "entry": "Gen.v", "counterexample": " ".join(m.group(1).split()),
+                           "term": term, "class": None}, found_input=True)
+
+
+SWEEPS = {
+    # name -> (quick term, thorough term): exhaustive model-vs-checker sweeps inside Coq
+    "sorts: every list over {0,1,2}, both variants": ("sort_sweep 5", "sort_sweep 8"),
+    "splitarray: every (length, nper)": ("splitarray_sweep 15 6", "splitarray_sweep 60 20"),
+    "pmap / pmap_exn: every permutation of the chunk completions (+ one repeated)": ("pmap_sweep 4", "pmap_sweep 6"),
+    "pbar: every configuration x total in None, 0..n+2; skeleton interpreter = model": ("pbar_sweep 4", "pbar_sweep 7"),
+}
 
 
 def run(ctx, replay=None):
     ctx.rule = ("corpus + adversarial families + seeded random cases per entry point; every case is run on the real esutil "
                 "(scratch build of the working tree) and inside Coq (model = implementation?  verified checker on the "
                 "implementation's output).  non-trivial: isplit num mod nchunks <> 0; splitarray ragged last chunk; sorts: >= 3 "
-                "items, neither sorted nor reverse-sorted; pbar >= 3 items; pmap nproc >= 2 with >= 2 chunks.  distinct by canonical JSON.")
+                "items, neither sorted nor reverse-sorted; pbar / nested / prange >= 3 items; pmap nproc >= 2 with >= 2 chunks; "
+                "pmap_exn >= 2 chunks and (a raise or nproc >= 2); format: t >= 60 or a total given.  distinct by canonical JSON.  "
+                "thorough: isplit 201x60, sorts over {0,1,2}^k k<=6, splitarray 31x12 on the real code; model sweeps inside Coq.")
     ctx.trusted = TRUSTED
-    core.proof_step(ctx, "C20", core.ALLOW_DISCRETE)
-    if not ctx.quick() and replay is None:
-        # exhaustive model-vs-spec sweep inside Coq on the rectangle named by the property
-        vals = core.coq_eval(ctx.work + "/sweep", PRE, ["if isplit_sweep 201 60 then 0 else 1"], tag="sweep")
-        ctx.obligation("isplit_sweep 201 60 = true (vm_compute, exhaustive 0..200 x 1..60)", vals == ["0"])
+    regenerated = regenerate(ctx)
+    built = core.proof_step(ctx, "C20", core.ALLOW_DISCRETE)
+    if not built:
+        # Tie.v / Properties.v no longer hold for this source text.  Model, Spec and Exec do not depend on Gen.v: keep
+        # looking for a failing input, in the regenerated text (inside Coq) and on the real code (differential)
+        if regenerated:
+            search_in_gen(ctx)
+        ok, log = core.coq_make(["theories/C20/Exec.vo"])
+        if not ok:
+            return
+    if replay is None:
+        names = list(SWEEPS)
+        terms = ["if %s then 0 else 1" % SWEEPS[k][0 if ctx.quick() else 1] for k in names]
+        if not ctx.quick():
+            names.append("isplit: 0..200 x 1..60")
+            terms.append("if isplit_sweep 201 60 then 0 else 1")
+        try:
+            vals = core.coq_eval(ctx.work + "/sweep", PRE, terms, tag="sweep", shard=1)
+        except core.CoqEvalError as e:
+            vals = [None] * len(terms)
+            ctx.notes.append("sweeps: " + str(e)[-400:])
+        for k, t, v in zip(names, terms, vals):
+            ctx.obligation("exhaustive sweep in Coq (vm_compute): %s [%s]" % (k, t[3:-14]), v == "0")
+            if v != "0":
+                ctx.violation("model sweep fails: %s" % k, {"kind": "sweep", "term": t, "value": v,
+                                                            "no_longer_checks": "model vs checker on the small scope " + k},
+                              found_input=False)
     differential(ctx, PRE, ENTRIES, replay)
